@@ -145,16 +145,24 @@ def vector_rules(ctx, Lmax):
     """calc_cv_vector for 3 and 4 interfaces, all move lists."""
     n = 0
     done = set()
-    for interfaces, cap in (([1.0, 2.0, 4.0], None), ([1.0, 2.0, 3.0, 4.0], None), ([1.0, 2.0, 3.0, 4.0], 3.5)):
-        vals = sorted(set([0.0] + interfaces + [(a + b) / 2 for a, b in zip(interfaces[:-1], interfaces[1:])] + [5.0]
-                          + ([cap] if cap else [])))
+    base = (([1.0, 2.0, 4.0], None, 0.0), ([1.0, 2.0, 3.0, 4.0], None, 0.0), ([1.0, 2.0, 3.0, 4.0], 3.5, 0.0),
+            # the origin of the order-parameter axis is arbitrary: the same layouts moved so that the cap,
+            # the first or the last interface is exactly 0.0
+            ([1.0, 2.0, 3.0, 4.0], 3.5, -3.5), ([1.0, 2.0, 3.0, 4.0], 3.5, -1.0), ([1.0, 2.0, 3.0, 4.0], 3.0, -3.0),
+            ([1.0, 2.0, 4.0], None, -4.0))
+    for interfaces0, cap0, shift in base:
+        interfaces = [x + shift for x in interfaces0]
+        cap = None if cap0 is None else cap0 + shift
+        lo_out, hi_out = interfaces[0] - 1.0, interfaces[-1] + 1.0
+        vals = sorted(set([lo_out] + interfaces + [(a + b) / 2 for a, b in zip(interfaces[:-1], interfaces[1:])] + [hi_out]
+                          + ([cap] if cap is not None else [])))
         nplus = len(interfaces)
         for moves in itertools.product(("sh", "wf"), repeat=nplus):
             mv = ["sh"] + list(moves)
             for L in range(3, Lmax + 1):
                 for mid in itertools.product(vals, repeat=L - 2):
-                    for end in (0.0, 5.0):
-                        order = (0.0,) + mid + (end,)
+                    for end in (lo_out, hi_out):
+                        order = (lo_out,) + mid + (end,)
                         n += 1
                         got = tis.calc_cv_vector(mk(order), interfaces, mv, cap=cap)
                         exp = ref_vector(order, interfaces, mv, cap)
@@ -162,6 +170,8 @@ def vector_rules(ctx, Lmax):
                             done.add("vec")
                             ctx.violation("cv-vector", f"interfaces {interfaces} cap {cap} moves {mv} order {order}: {got} != {exp}",
                                           dict(kind="vec", interfaces=interfaces, cap=cap, moves=mv, order=list(order)))
+        if shift:
+            continue
         # minus paths
         for L in range(3, 6):
             for mid in itertools.product((-1.0, 0.0, 0.5), repeat=L - 2):
